@@ -187,7 +187,9 @@ func zzB405(n types.Node) *hnd { return &hnd{id: id405, node: n} }
 func zzBOpt(n types.Node) *hnd { return &hnd{id: idOpt, node: n} }
 
 func zzNewRouter(name string, o ...Option) *Router[*hnd] {
-	o = append([]Option{WithDigitInterceptor("digit"), WithWordInterceptor("word"), WithAnyInterceptor("any")}, o...)
+	// "u" is an arbitrary user-defined interceptor: an uninterpreted predicate under the executor
+	o = append([]Option{WithDigitInterceptor("digit"), WithWordInterceptor("word"), WithAnyInterceptor("any"),
+		WithInterceptor(func(s string) bool { return zzv.UFPred("u", s) }, "u")}, o...)
 	return NewRouter[*hnd](name, zzCall, &hnd{id: id404}, zzB405, zzBOpt, o...)
 }
 
@@ -288,6 +290,8 @@ func zzValueOK(rule, v string) bool {
 		return zzAllWord(v)
 	case "any":
 		return len(v) > 0
+	case "u":
+		return zzv.UFPred("u", v)
 	}
 	re := regexp.MustCompile("^(?:" + rule + ")$")
 	return re.MatchString(v)
